@@ -450,6 +450,21 @@ def check_r3(facts, rep, crate):
         tr = Tracer(facts, b)
         where = "%s (%s)" % (loc_str(b.loc), b.path)
         key = "CowBytes::%s" % b.name
+        # every result is produced by the variant-wise partition: no return bypasses the match on the variant
+        if b.name in ("split_to", "split_off"):
+            disc = set()
+            for gb in range(len(b.blocks)):
+                if b.term(gb)["k"] == "SwitchInt":
+                    g = guard_at(facts, b, tr, gb)
+                    if g is not None and g.kind == "discr" and g.adt and g.adt.endswith("CowBytes"):
+                        disc.add(gb)
+            rets = [x for x in b.reachable_from(0, cut=disc) if b.term(x)["k"] == "Return"]
+            if disc and not rets:
+                rep.ok(rid, key + "/no-bypass", where, "every return goes through the match on the variant")
+            else:
+                rep.bad(rid, key + "/no-bypass", where,
+                        "a return of CowBytes::%s bypasses the variant-wise partition (special-cased argument): for that argument the two halves are "
+                        "not those of a byte vector split at the same index, or the variant changes" % b.name)
         # owned arm: a call to bytes::Bytes::<same name>(.., at)
         owned = [t for _, t in b.calls() if callee(t) and callee(t)["name"] == b.name and "bytes::Bytes" in callee(t)["def"]]
         if len(owned) != 1:
